@@ -15,6 +15,12 @@ def documented_defaults(obj):
         name, raw = m.group(1), m.group(2).strip().rstrip(".")
         try:
             out[name] = ast.literal_eval(raw)
+            continue
+        except Exception:  # noqa
+            pass
+        try:                                   # "default=10 The hierarchy coefficient ..." (description on the same line)
+            out[name] = ast.literal_eval(raw.split()[0])
+            continue
         except Exception:  # noqa
             out[name] = raw.strip("'\"") if re.fullmatch(r"['\"]?[\w\-]+['\"]?", raw) else None
             if raw in ("None",):
